@@ -155,7 +155,7 @@ func runC12With(t *testing.T, c simrt.Chooser, o Opts, forcedStep int, block int
 	w.maxVirt = 10 * time.Hour
 	cr := runCmd(t, c, w, o.Trace)
 	out.Res = &cr.Res
-	fired := cr.Res.SigStep > 0 || cr.Res.SigTime > 0
+	fired := cr.Res.SigFired
 	kind := "socks"
 	if ps != nil {
 		kind = ps.Spec.Kind
